@@ -25,8 +25,9 @@ type LetStmt struct {
 	Line  int
 	Src   string
 	// Kind: "let" (contract call), "assert" (proof hint: obligation then assumption), "assume" (counted as assumption)
-	Kind string
-	Expr *CE
+	Kind  string
+	Expr  *CE
+	FnKey string // method key when the callee is written as (*T).M
 }
 
 type MonitorRule struct {
@@ -55,6 +56,7 @@ type Contract struct {
 	Pure       bool
 	Trusted    bool
 	NoInline   bool
+	Refines    []string
 	Modifies   []string
 	Options    map[string]string
 	SpecBody   *CE
@@ -73,10 +75,10 @@ type Monitor struct {
 }
 
 var clauseKeywords = map[string]bool{
-	"func": true, "lemma": true, "spec": true, "iface": true,
+	"func": true, "lemma": true, "spec": true, "iface": true, "uninterp": true,
 	"requires": true, "ensures": true, "loop": true, "pure": true, "trusted": true, "modifies": true,
 	"property": true, "let": true, "assert": true, "assume": true, "option": true, "monitor": true,
-	"after": true, "before": true, "ghost": true, "noinline": true, "note": true, "end": true,
+	"after": true, "before": true, "ghost": true, "noinline": true, "refines": true, "note": true, "end": true,
 }
 
 type rawLine struct {
@@ -118,6 +120,8 @@ func contractLinesFromBytes(data []byte, goFile bool) []rawLine {
 	}
 	return out
 }
+
+var methodCallRe = regexp.MustCompile(`^(\(\*?[A-Za-z0-9_./]+\)\.[A-Za-z0-9_$]+)\(`)
 
 var labelRe = regexp.MustCompile(`^@([A-Za-z0-9_\-]+)\s+`)
 
@@ -262,6 +266,19 @@ func parseContractLines(lines []rawLine, path, pkgPath string) ([]*Contract, err
 				Options: map[string]string{}, Invariants: map[int][]*Clause{}}
 			out = append(out, cur)
 			curMon = nil
+		case "uninterp":
+			key, pn, pt, rs, err := parseFuncHeader(rest)
+			if err != nil {
+				return nil, fail(err)
+			}
+			srt := "bool"
+			if len(rs) > 0 {
+				srt = rs[0]
+			}
+			out = append(out, &Contract{Kind: "uninterp", Key: key, ParamNames: pn, ParamTypes: pt, SpecSort: srt, File: path, Line: rl.line,
+				Options: map[string]string{}, Invariants: map[int][]*Clause{}})
+			cur = nil
+			curMon = nil
 		case "property":
 			if cur == nil {
 				fileProps = strings.Fields(rest)
@@ -307,7 +324,13 @@ func parseContractLines(lines []rawLine, path, pkgPath string) ([]*Contract, err
 			cur.Trusted = true
 		case "noinline":
 			cur.NoInline = true
+		case "refines":
+			cur.Refines = append(cur.Refines, strings.Fields(rest)...)
 		case "modifies":
+			if strings.TrimSpace(rest) == "nothing" {
+				cur.Pure = true
+				break
+			}
 			cur.Modifies = append(cur.Modifies, strings.Fields(strings.ReplaceAll(rest, ",", " "))...)
 		case "option":
 			f := strings.SplitN(rest, " ", 2)
@@ -328,11 +351,17 @@ func parseContractLines(lines []rawLine, path, pkgPath string) ([]*Contract, err
 			for _, n := range strings.Split(rest[:eq], ",") {
 				names = append(names, strings.TrimSpace(n))
 			}
-			e, err := ParseCE(strings.TrimSpace(rest[eq+1:]))
+			rhs := strings.TrimSpace(rest[eq+1:])
+			fnKey := ""
+			if m := methodCallRe.FindStringSubmatch(rhs); m != nil {
+				fnKey = m[1]
+				rhs = "__callee(" + rhs[len(m[0]):]
+			}
+			e, err := ParseCE(rhs)
 			if err != nil {
 				return nil, fail(err)
 			}
-			cur.Stmts = append(cur.Stmts, LetStmt{Kind: "let", Names: names, Call: e, Line: rl.line, Src: rest})
+			cur.Stmts = append(cur.Stmts, LetStmt{Kind: "let", Names: names, Call: e, Line: rl.line, Src: rest, FnKey: fnKey})
 		case "assert", "assume":
 			if curMon != nil && kw == "assert" {
 				return nil, fail(fmt.Errorf("assert inside monitor must follow 'before'"))
